@@ -108,6 +108,7 @@ func (c07) Plan(tier string, seed int64) []mon.Workload {
 		{Name: "strings-exhaustive", N: n, Exhaustive: true},
 		{Name: "strings-random", N: rnd},
 		{Name: "code-points", N: int64(len(c07CodePoints) * len(c07CPForms) * len(c07CPContexts) * len(c07Styles)), Exhaustive: true},
+		{Name: "two-literals", N: int64(len(c07PairBodies) * len(c07Styles) * len(c07Styles) * 2), Exhaustive: true},
 		{Name: "ints", N: int64(len(c07IntList)), Exhaustive: true},
 		{Name: "floats", N: fl},
 		{Name: "keywords", N: int64(len(c07Keywords)), Exhaustive: true},
@@ -330,6 +331,57 @@ func (k c07) spelling(c *mon.Ctx, workload string, i int64) string {
 	return ""
 }
 
+// two-literals (exhaustive): two literals with the SAME text between their
+// delimiters but different quote styles in one source, in both orders (and
+// the same style twice): each denotes what ITS spelling denotes - an escape
+// means something in '..' and "..", nothing in `..` and the triple-quoted
+// forms.
+var c07PairBodies = []string{"a\\tb", "\\x41", "\\u00e9z", "q\\\\q", "\\101", "plain", "\\n", "é\\té", "100%\\d", "a\\"}
+
+func (k c07) twoLiterals(c *mon.Ctx, i int64) {
+	sameLine := i%2 == 1
+	i /= 2
+	n := int64(len(c07Styles))
+	s2 := c07Styles[i%n]
+	i /= n
+	s1 := c07Styles[i%n]
+	body := c07PairBodies[i/n]
+	sp1, sp2 := s1+body+s1, s2+body+s2
+	sep := "\n"
+	if sameLine {
+		sep = "; "
+	}
+	src := "x = " + sp1 + sep + "y = " + sp2 + "\n"
+	cl1, w1 := classifyString(sp1, s1)
+	cl2, w2 := classifyString(sp2, s2)
+	if cl1 != litWell || cl2 != litWell {
+		return
+	}
+	obs := drive.Parse("c07.p", src)
+	c.Eval(1)
+	c.Nontrivial(src)
+	cs := map[string]any{"source": fmt.Sprintf("%q", src)}
+	if obs.Panic != nil || obs.Stderr != "" {
+		c.Violate("literal-crash", fmt.Sprintf("parsing %q crashed: %v", src, obs.Panic), cs)
+		return
+	}
+	if obs.Err != nil {
+		c.Violate("wellformed-string-rejected", fmt.Sprintf("%q holds two well-formed literals but was rejected: %v", src, obs.Err), cs)
+		return
+	}
+	stmts, err := gt.FromStmts(obs.Stmts)
+	if err != nil || len(stmts) != 2 || stmts[0].K != gt.KAssign || stmts[1].K != gt.KAssign || len(stmts[0].RHS) != 1 || len(stmts[1].RHS) != 1 {
+		c.Violate("string-literal-not-single-node", fmt.Sprintf("%q did not parse to two assignments (%v)", src, err), cs)
+		return
+	}
+	for j, want := range []string{w1, w2} {
+		if got := stmts[j].RHS[0].S; got != want {
+			c.Violate("string-literal-wrong-value", fmt.Sprintf("in %q literal %d must denote %q, parsed value is %q", src, j+1, want, got), cs)
+			return
+		}
+	}
+}
+
 // c07Prev is the last well-formed literal accepted (its node keeps whatever
 // memory the parser gave the value).
 var c07Prev struct {
@@ -356,6 +408,8 @@ func c07Parse(sp string) (node *gt.T, obs drive.ParseObs, note string) {
 
 func (k c07) Run(c *mon.Ctx, workload string, i int64) {
 	switch workload {
+	case "two-literals":
+		k.twoLiterals(c, i)
 	case "strings-exhaustive", "strings-random", "code-points":
 		sp, style := c07String(c, workload, i)
 		if sp == "" || !utf8.ValidString(sp) {
